@@ -74,7 +74,8 @@ def cases(draw, tier):
              "responses": draw(st.lists(st.sampled_from(["200", "201", "204", "404", "500", "default", "2XX", "600", "abc"]),
                                         min_size=1, max_size=3, unique=True)),
              "resp_media": draw(st.sampled_from(["json", "json", "none", "xml", "text"])),
-             "body": draw(st.sampled_from([None, None, "json", "json+xml", "form", "xml"])),
+             "body": draw(st.sampled_from(BODIES)),
+             "empty_tags_key": draw(st.integers(0, 2)) == 0,
              "uses": draw(st.sampled_from([None] + names))}
         ops.append(o)
     return {"schemas": schemas, "ops": ops, "all_tags": draw(st.booleans()), "literal": draw(st.booleans())}
@@ -82,6 +83,17 @@ def cases(draw, tier):
 
 def strategy(tier):
     return cases(tier)
+
+
+_OBJ_F = {"type": "object", "properties": {"f": {"type": "string"}}}
+# request media types by key; several keys joined with '+' give one operation several media types (two of one encoding family
+# with the same schema included: each is a separate thing the document says)
+MEDIA = {"json": ("application/json", {"type": "string"}), "xml": ("application/xml", {"type": "string"}),
+         "form": ("application/x-www-form-urlencoded", _OBJ_F), "multipart": ("multipart/form-data", _OBJ_F),
+         "patchjson": ("application/merge-patch+json", {"type": "string"}), "vndjson": ("application/vnd.note+json", {"type": "string"}),
+         "vndint": ("application/vnd.count+json", {"type": "integer"}), "octet": ("application/octet-stream", {"type": "string", "format": "binary"})}
+BODIES = [None, None, None, "json", "json+xml", "form", "xml", "json+patchjson", "json+vndjson", "patchjson+vndjson+json", "json+vndint",
+          "form+multipart", "json+form", "octet", "json+octet"]
 
 
 FAULTS = {"array_without_items": {"type": "array"}, "dangling_ref": {"$ref": "#/components/schemas/ZzNope"},
@@ -123,6 +135,8 @@ def build(case):
             op["operationId"] = o["opid"]
         if o["tags"]:
             op["tags"] = list(o["tags"])
+        elif o.get("empty_tags_key"):
+            op["tags"] = []   # an explicitly empty list says the same as no list
         params = []
         for ph in re.findall(r"{([^}]*)}", o["path"]):
             params.append({"name": ph, "in": "path", "required": True, "schema": {"type": "string"}})
@@ -145,14 +159,8 @@ def build(case):
             op["requestBody"] = {"content": {"application/json": {"schema": {"type": "array"}}}}
         elif f == "unsupported_body_only":
             op["requestBody"] = {"content": {"application/xml": {"schema": {"type": "string"}}}}
-        elif body == "json":
-            op["requestBody"] = {"content": {"application/json": {"schema": {"type": "string"}}}}
-        elif body == "json+xml":
-            op["requestBody"] = {"content": {"application/json": {"schema": {"type": "string"}}, "application/xml": {"schema": {"type": "string"}}}}
-        elif body == "form":
-            op["requestBody"] = {"content": {"application/x-www-form-urlencoded": {"schema": {"type": "object", "properties": {"f": {"type": "string"}}}}}}
-        elif body == "xml":
-            op["requestBody"] = {"content": {"application/xml": {"schema": {"type": "string"}}}}
+        elif body:
+            op["requestBody"] = {"content": {MEDIA[k][0]: {"schema": copy.deepcopy(MEDIA[k][1])} for k in body.split("+")}}
         resp = {}
         for st_ in o["responses"]:
             if o["resp_media"] == "json":
@@ -332,9 +340,8 @@ def _check_handling(ctx, case, res, present_ops, diag, api_files):
             # request media types
             body = o.get("body")
             if body and not o.get("fault"):
-                for mt, key in (("application/json", "json"), ("application/xml", "xml"), ("application/x-www-form-urlencoded", "form")):
-                    if key not in body.split("+"):
-                        continue
+                for key in body.split("+"):
+                    mt = MEDIA[key][0]
                     ctx.evals()
                     if mt in src:
                         continue
